@@ -89,10 +89,9 @@ def make_variant(rng_state, kind, axi, exc, harmonic=0.0, refine=1.0):
 def vanishing_frequency(p):
     """a frequency far below the problem's own time scale: omega * sigma * mu * L^2 = 1e-6 with the largest conductivity and
     permeability anywhere and the full extent of the drawing (measured deviation from the static field at this frequency:
-    at most 2e-7 relative).  Far below that (e.g. 1e-9 Hz for a drawing
-    in micrometres, 1e-11 Hz in centimetres) the unknowns of solid conductors in circuits grow like 1/f and the attainable
-    accuracy of the iterative solver in binary64 degrades in proportion (independent of Precision) -- rounding, which no
-    theorem here covers; observed and recorded in DESIGN.md."""
+    at most 2e-7 relative).  The comparison is repeated 10^4 times lower still: before the repair 793b1f5 of the complex
+    solver (drifted residual) the unknowns of solid conductors in circuits, which grow like 1/f, made the returned field
+    deviate in proportion to 1/(f L^2) there."""
     import math
     L = 7.0 * femgen.UNIT_M[p["units"]]
     sig = max([b.get("sigma", 0.0) for b in p["blockprops"]] + [1e-3]) * 1e6
@@ -244,7 +243,7 @@ def correspond(ctx):
             one = dict(lam, lamfill=fill, d_lam=rng.choice([0.2, 0.35, 0.5]))
             S["lam"] = {m: one for m in (("m1", "m2") if which == "both" else (which,))}
         s0, e0 = solve(ctx, "h%d_static" % hk, make_variant(st, "fem", axi, S, 0.0))
-        flow = vanishing_frequency(make_variant(st, "fem", axi, S, 1.0))
+        flow = vanishing_frequency(make_variant(st, "fem", axi, S, 1.0)) * (1e-4 if hk % 2 else 1.0)
         s1, e1 = solve(ctx, "h%d_lowfreq" % hk, make_variant(st, "fem", axi, S, flow))
         feats["omega0-" + ("axi-" if axi else "planar-") + lname] = feats.get("omega0-" + ("axi-" if axi else "planar-") + lname, 0) + 1
         if e0 or e1:
